@@ -110,6 +110,7 @@ class Step(Harness):
     validate = False
 
     def run(self, ctx):
+        from checks import c12
         lib = self.lib
         # ---- arbitrary state: for each APID a stored group of 0..3 segments
         shape = ctx.choose("shape", 16)
@@ -140,12 +141,13 @@ class Step(Harness):
             exc = None
         except Exception as e:     # noqa: BLE001 - library outcome
             out, table2, exc = [], table, type(e).__name__
-        warns = [("nostart" if m.startswith(W_NOSTART) else "gap") for (_, m) in ctx.warnings if m.startswith(W_NOSTART) or m.startswith(W_GAP)]
+        warns = [c12.kind_of(m) for (cat, m) in ctx.warnings if "Deprecat" not in cat]
         # ---- reference transition function (forks only where the symbolic fields leave a choice)
         want_out, want_warn = [], []
         want_table = {k: list(v) for k, v in before.items()}
         if ctx.fork(flags_t == 3):
             want_out.append(list(pkt.items))
+            want_warn.append("len")
         else:
             a = ctx.pick(z3.BV2Int(apid_t))
             if ctx.fork(flags_t == 1):
@@ -168,9 +170,10 @@ class Step(Harness):
                     for p in group[1:]:
                         items += p.items[6 + s:]
                     want_out.append(items)
+                    want_warn.append("len")
                 else:
                     want_warn.append("gap")
-        obl = [("no exception", exc is None), ("warnings", warns == want_warn), ("number of outputs", len(out) == len(want_out))]
+        obl = [("no exception", exc is None), ("warnings", c12.same_warnings(warns, want_warn)), ("number of outputs", len(out) == len(want_out))]
         for i, (g, w) in enumerate(zip(out, want_out)):
             gi = g.raw_data.items if hasattr(g, "raw_data") else None
             if gi is None or len(gi) != len(w):
@@ -188,7 +191,7 @@ class Step(Harness):
             for raw in before[k]:
                 hist += list(raw.items)
         hist += list(pkt.items)
-        return result(f"{len(want_out)}out/{len(want_warn)}warn", obl, observe={}, inputs={"stream": bv.SymBytes(hist), "s": s, "K": g0 + g1 + 1})
+        return result(f"{len(want_out)}out/{len([w for w in want_warn if w != 'len'])}warn", obl, observe={}, inputs={"stream": bv.SymBytes(hist), "s": s, "K": g0 + g1 + 1})
 
 
 def make(job):
